@@ -18,12 +18,26 @@ from core_codemods.semgrep.api import SemgrepCodemod, semgrep_url_from_id
 class RemoveCsrfExemptTransformer(LibcstResultTransformer, NameResolutionMixin):
     change_description = "Remove `@csrf_exempt` decorator from Django view"
 
+    def _is_reported(self, node: cst.Decorator) -> bool:
+        """
+        The rule reports the whole decorated function (from its first decorator
+        to the end of its body), so the decorator lies inside the reported region.
+        """
+        if self.results is None:
+            return True
+        line = self.lineno_for_node(node)
+        return any(
+            location.start.line <= line <= location.end.line
+            for result in self.results
+            for location in result.locations
+        )
+
     def leave_Decorator(
         self, original_node: cst.Decorator, updated_node: cst.Decorator
     ):
         if not self.filter_by_path_includes_or_excludes(
             self.node_position(original_node)
-        ):
+        ) or not self._is_reported(original_node):
             return updated_node
 
         if (
